@@ -15,11 +15,11 @@ Proof.
   inversion H; subst. reflexivity.
 Qed.
 
-Lemma do_stmt_local : forall t cn k m sees O r l O1 c,
-  do_stmt t cn k m sees O = (r, l, O1, c) ->
-  exists rs, forall x, do_stmt t cn k m sees (rs ++ x) = (r, l, x, c).
+Lemma do_stmt_local : forall t cn k m sees dl O r l O1 c,
+  do_stmt t cn k m sees dl O = (r, l, O1, c) ->
+  exists rs, forall x, do_stmt t cn k m sees dl (rs ++ x) = (r, l, x, c).
 Proof.
-  intros t cn k m sees O r l O1 c H. unfold do_stmt in H. destruct m.
+  intros t cn k m sees dl O r l O1 c H. unfold do_stmt in H. destruct m.
   - destruct (drv t cn (CStmt k KExec) O) as [[[[o v] b] l0] o1] eqn:E. inversion H; subst.
     exists [fst (pop O)]. intros x. unfold do_stmt. cbn [app]. rewrite (drv_local _ _ _ _ _ _ _ _ _ E x). reflexivity.
   - destruct (drv t cn (CStmt k KQuery) O) as [[[[o v] b] l0] o1] eqn:E. inversion H; subst.
@@ -66,8 +66,8 @@ Proof.
     destruct done eqn:E2.
     { apply (Hsil _ _ _ H (fun x => do_action t sc k (AStmt m withctx) canc true x)).
       intros x. unfold do_action. rewrite E1. reflexivity. }
-    destruct (do_stmt t (sconn sc) k m (sctxapi sc && withctx) O) as [[[r0 l0] o1] c0] eqn:E.
-    inversion H; subst. destruct (do_stmt_local _ _ _ _ _ _ _ _ _ _ E) as [rs Hrs]. exists rs. intros x.
+    destruct (do_stmt t (sconn sc) k m (sctxapi sc && withctx) (sdl sc) O) as [[[r0 l0] o1] c0] eqn:E.
+    inversion H; subst. destruct (do_stmt_local _ _ _ _ _ _ _ _ _ _ _ E) as [rs Hrs]. exists rs. intros x.
     unfold do_action. rewrite E1, (Hrs x). reflexivity.
   - apply (Hsil _ _ _ H (fun x => do_action t sc k ANest canc done x)). intros x. reflexivity.
   - destruct (do_selfend_local _ _ _ _ _ _ _ _ H) as [rs Hrs]. exists rs. intros x.
